@@ -267,7 +267,13 @@ async def script(loop, ctx):
                     if escapes(v, root) and v not in ("", "/"):
                         problems.append(("listed-name-outside-root", v))
             if r.status not in ("OK", "NO", "BAD"):
-                problems.append(("no-tagged-reply", r.status))
+                if any(x.kind == "status" and x.status == "BYE" for x in r.responses):
+                    # the mailbox this session had selected was renamed/deleted by one of the
+                    # (harmless, inside-the-root) commands before: the server says BYE -- a
+                    # legal completion; the next case opens a new session
+                    counts["bye_selected_mailbox_gone"] += 1
+                else:
+                    problems.append(("no-tagged-reply", r.status))
             if extra and extra[0] == "pair" and escapes(extra[1][0], root) and escapes(extra[1][1], root):
                 arg2, _ = encode(rnd, extra[1][1], kinds=(used,))
                 r2 = await s.cmd(build_cmd(pos, arg2))
@@ -284,7 +290,8 @@ async def script(loop, ctx):
             key = common.h([pos, nm, used])
             if problems:
                 cases.append(Case.make(cid, VIOLATED, spec=ctx["spec"], nontrivial=esc, key=key, sample=sample,
-                                       witness={"kind": problems[0][0], "detail": problems[0][1], "all": [p[0] for p in problems], "position": pos, "name": nm, "encoding": used, "reply": r.brief()}))
+                                       witness={"kind": problems[0][0], "detail": problems[0][1], "all": [p[0] for p in problems], "position": pos, "name": nm, "encoding": used, "reply": r.brief(),
+                                                "transcript": s.log[-8:], "server_log": [x[2][:200] for x in rig.log_records[-4:]]}))
             else:
                 if esc and not is_list:
                     counts["escaping_refused"] += 1
